@@ -18,6 +18,7 @@ class VectorDecl:
         self.names, self.defaults, self.mins, self.maxs = [], [], [], []
         self.accept_nan = False
         self.node = None
+        self.known = True                # False: the class hands its base constructor a vector this reader cannot resolve
 
 
 class Case:
@@ -167,6 +168,11 @@ class TClass:
                         setattr(self, slot, vecs[node.id])
                     elif isinstance(node, ast.Call) and dotted(node.func) == "Vector":
                         setattr(self, slot, read_vector(node))
+                    else:
+                        unk = VectorDecl()
+                        unk.known = False
+                        unk.node = node
+                        setattr(self, slot, unk)
 
 
 def read_vector(call):
@@ -181,6 +187,8 @@ def read_vector(call):
     vals.update(kws)
     if "names" in vals and isinstance(vals["names"], (ast.List, ast.Tuple)):
         v.names = [const_value(x) for x in vals["names"].elts]
+    elif "names" in vals:
+        v.known = False
     for s in ("defaults", "mins", "maxs"):
         n = vals.get(s)
         if isinstance(n, (ast.List, ast.Tuple)):
@@ -201,6 +209,8 @@ class MethodEval:
     # names ----------------------------------------------------------------
     def psyms(self, which):
         decl = self.tc.params if which == "params" else self.tc.constants
+        if not decl.known:
+            raise Undecided(f"declaration of self.{which} of {self.tc.name} is not a literal Vector([...]) call")
         return [('sym', f"{n}") for n in decl.names]
 
     def resolve_attr(self, d, env):
